@@ -332,21 +332,23 @@ Definition c10_ok (alive0 pending0 : list entity) (progs : list (list cop)) (os 
   && Nat.eqb (length ran) (length (concat pushes))
   && forallb (fun p => list_N_eqb (filter (fun q => existsb (N.eqb q) p) ran) p) pushes.
 
-(* verdict on an observed transcript: [decoded; equal to the model's; c10_ok] *)
+(* verdict on an observed transcript: [decoded; equal to the model's; c10_ok;
+   the initial handles satisfy the hypothesis of the theorems (hinit_okb)] *)
 Definition conc_verdict (l : list Z) (t : list (list Z)) (eq : bool) : list Z :=
   match dec_case l with
-  | None => [0; 0; 0]%Z
+  | None => [0; 0; 0; 0]%Z
   | Some cs =>
       let w := setup_world cs in
       let alive0 := a_entities (w_alloc w) in
       let pending0 := filter (fun e => NS.mem (fst e) (killed (w_alloc w))) alive0 in
+      let hyp := enc_bool (forallb (hinit_okb (w_alloc w)) (rev (w_hl w))) in
       match dec_all_couts (thread_lines t), find_line 46 t, find_line 47 t with
       | Some os, Some ents, Some ran =>
           match dec_ent_list (S (length ents)) ents with
           | Some after =>
-              [1%Z; enc_bool eq; enc_bool (c10_ok alive0 pending0 (cs_progs cs) os after (map Z.to_N ran))]
-          | None => [0; enc_bool eq; 0]%Z
+              [1%Z; enc_bool eq; enc_bool (c10_ok alive0 pending0 (cs_progs cs) os after (map Z.to_N ran)); hyp]
+          | None => [0%Z; enc_bool eq; 0%Z; hyp]
           end
-      | _, _, _ => [0; enc_bool eq; 0]%Z
+      | _, _, _ => [0%Z; enc_bool eq; 0%Z; hyp]
       end
   end.
